@@ -147,6 +147,30 @@ Definition times_legal (lo hi : time) (o : op) : bool :=
 Definition nonempty {A} (mk : list A -> mismatch) (l : list A) : list mismatch :=
   match l with [] => [] | _ => [mk l] end.
 
+(* the subscription an operation is addressed to by name (acks and deadline changes address
+   deliveries by id: their subscription field is only format-checked) *)
+Definition op_target_sub (pre : state) (o : op) : option id :=
+  let sid_of := fun name => option_map s_id (find_live_sub pre name) in
+  match o with
+  | Pull name _ _ _ _ _ _ | SeekTime name _ _ | SeekSnap name _ _ | DeleteSub name _ | ModifyPush name _
+  | SetDelay name _ => sid_of name
+  | UpdateSub q _ _ => sid_of (q_name q)
+  | _ => None
+  end.
+
+(* a delivery row of ANOTHER subscription differs although the operation was addressed to one
+   subscription (and is not a dead-letter forward, which creates rows with attempts = 0) *)
+Definition touches_other_sub (pre : state) (o : op) (m p : state) : bool :=
+  match op_target_sub pre o with
+  | None => false
+  | Some sid =>
+      existsb (fun r => negb (N.eqb (d_sub r) sid) &&
+                        match find_id d_id (d_id r) (dels p) with
+                        | Some r' => negb (del_eqb_ties p r r')
+                        | None => true
+                        end) (dels m)
+  end.
+
 Definition check_step (pre : state) (o : obs) : list mismatch :=
   let r := step pre (o_lo o) (o_op o) in
   let m := r_state r in
@@ -159,6 +183,7 @@ Definition check_step (pre : state) (o : obs) : list mismatch :=
   nonempty MMsgs (diff_table m_id msg_eqb (msgs m) (msgs p)) ++
   nonempty MDels (diff_table d_id (del_eqb_ties p) (dels m) (dels p)) ++
   nonempty MSnaps (diff_table n_id snap_eqb (snaps m) (snaps p)) ++
+  (if touches_other_sub pre (o_op o) m p then [MNote "other-subscription"] else []) ++
   nonempty MCols (diff_cols d_id (del_cols p) "d.row-missing" "d.row-extra" (dels m) (dels p) ++
                   diff_cols s_id sub_cols "s.row-missing" "s.row-extra" (subs m) (subs p)).
 
